@@ -298,7 +298,20 @@ type c17Path struct {
 }
 
 var c17Leaves = []string{"str", "mapss", "ints", "array", "nilptr", "int", "mapsi", "ints12"}
-var c17Nest = []string{"mapany", "sliceany", "struct", "ptr", "ptrptr", "mapstruct", "ptrmap", "ptrslice", "embed", "clash", "hidden", "embedptr", "embedptrnil"}
+var c17Nest = []string{"mapany", "sliceany", "struct", "ptr", "ptrptr", "mapstruct", "ptrmap", "ptrslice", "embed", "clash", "hidden", "embedptr", "embedptrnil", "mapnamed", "shadowtag", "owntag"}
+
+// c17ShadowTag: an unexported field has the name that is the JSON tag of an exported one
+type c17ShadowTag struct {
+	tag   string
+	Field any `json:"tag"`
+}
+
+// c17OwnTag: the struct's own field carries a tag that a field of the embedded struct (declared
+// first) carries too: the own field is the one the tag means (as for encoding/json)
+type c17OwnTag struct {
+	c17Path
+	Mine any `json:"tag"`
+}
 
 // c17Hidden: a field tagged json:"-" has no tag name ("-" is not one); its Go name reaches it.
 type c17Hidden struct {
@@ -378,6 +391,12 @@ func c17Build(desc string) any {
 			v = &c17OuterPtr{Own: "o"}
 		case "embed":
 			v = c17Outer{c17Path: c17Path{Field: v, Tagged: v}, Own: "o"}
+		case "mapnamed": // a map whose key type is a named string type (type Lang string)
+			v = map[vNamedStr]any{"k": v, "tag": "namedtag", "0": "zero-key"}
+		case "shadowtag":
+			v = c17ShadowTag{tag: "hidden", Field: v}
+		case "owntag":
+			v = c17OwnTag{c17Path: c17Path{Field: "promoted-field", Tagged: "promoted-tag"}, Mine: v}
 		case "mapstruct":
 			v = map[string]c17Path{"k": {Field: v}, "0": {Field: "zero-key"}}
 		}
@@ -404,7 +423,7 @@ func refStep(cur any, step string) (any, bool, bool) {
 		if rv.Type().Key().Kind() != reflect.String {
 			return nil, false, false
 		}
-		e := rv.MapIndex(reflect.ValueOf(step))
+		e := rv.MapIndex(reflect.ValueOf(step).Convert(rv.Type().Key()))
 		if !e.IsValid() {
 			return nil, false, true
 		}
@@ -418,7 +437,10 @@ func refStep(cur any, step string) (any, bool, bool) {
 	case reflect.Struct:
 		// the fields Go itself lets a selector reach: own fields and the promoted fields of embedded
 		// structs. A Go field name wins over a JSON tag spelled the same way.
+		// An unexported field is not reachable: its name is free to be the tag of an exported one.
+		// Of two fields with the same tag the shallower one is meant (the struct's own before a promoted one).
 		for pass := 0; pass < 2; pass++ {
+			var best *reflect.StructField
 			for _, f := range reflect.VisibleFields(rv.Type()) {
 				tag := strings.Split(f.Tag.Get("json"), ",")[0]
 				if tag == "-" {
@@ -427,16 +449,22 @@ func refStep(cur any, step string) (any, bool, bool) {
 				if f.Anonymous && f.Name != step {
 					continue
 				}
-				if (pass == 0 && f.Name == step) || (pass == 1 && tag != "" && tag == step) {
-					if !f.IsExported() {
-						return nil, false, true
-					}
-					fv, err := rv.FieldByIndexErr(f.Index)
-					if err != nil {
-						return nil, false, true
-					}
-					return fv.Interface(), true, true
+				if !f.IsExported() {
+					continue
 				}
+				if (pass == 0 && f.Name == step) || (pass == 1 && tag != "" && tag == step) {
+					if best == nil || len(f.Index) < len(best.Index) {
+						f := f
+						best = &f
+					}
+				}
+			}
+			if best != nil {
+				fv, err := rv.FieldByIndexErr(best.Index)
+				if err != nil {
+					return nil, false, true
+				}
+				return fv.Interface(), true, true
 			}
 		}
 		return nil, false, true
